@@ -47,9 +47,11 @@ type PStep struct {
 }
 
 type PBehaviour struct {
-	ID   int      `json:"id"`
-	Msg  MsgShape `json:"msg"`
-	Hist []PStep  `json:"hist"`
+	// CaseVar: r1/r2 differ only by the letter case of the local part (harness-only dimension)
+	CaseVar bool     `json:"caseVar"`
+	ID      int      `json:"id"`
+	Msg     MsgShape `json:"msg"`
+	Hist    []PStep  `json:"hist"`
 }
 
 const taintUser = "verif-taint-user-7f3a9c"
@@ -274,6 +276,8 @@ func scanTaint(dir string) (bool, []string) {
 }
 
 func runPreserve(t *testing.T, b PBehaviour, w *bufio.Writer, seed int64) {
+	caseVar = b.CaseVar
+	defer func() { caseVar = false }()
 	dir, err := os.MkdirTemp(workDir(), "spool")
 	if err != nil {
 		t.Fatal(err)
